@@ -69,6 +69,7 @@ def _bind_module(m):
         m.np = arrays.np_proxy
     m.float = values.sym_float
     m.int = values.sym_int
+    m.set = values.SymSet
     d = m.__dict__
     if d.get("datetime") is _dt:
         m.datetime = calmodel.datetime_model
@@ -97,7 +98,7 @@ def _unbind_module(m):
         m.matplotlib = _mpl
     if isinstance(d.get("mpldates"), calmodel._MplDates):
         m.mpldates = _mpld
-    for name in ("float", "int"):
+    for name in ("float", "int", "set"):
         if name in m.__dict__:
             del m.__dict__[name]
 
